@@ -114,8 +114,10 @@ def run(ctx, params):
         return run_nested_ctor(ctx, params)
     is_async = params["engine"] == "async"
     rtc = params["rtc"]
-    vals = {"a": "a", "b": 0, "c": ""} if params["falsy"] else {"a": "a", "b": "b", "c": "c"}
-    am = chain_am(asyncs_all=is_async, with_listener=True, values=vals if params["falsy"] else None)
+    # non-falsy variant: multi-character values, and what the model holds is an equal but distinct object (what a
+    # value read back from storage looks like) - "untouched" is judged by identity
+    vals = {"a": "a", "b": 0, "c": ""} if params["falsy"] else {"a": "st-a", "b": "st-b", "c": "st-c"}
+    am = chain_am(asyncs_all=is_async, with_listener=True, values=vals)
     start_id = "b" if params["sv"] else "a"
     stored = params["stored"]
     with ctx.notracing():
@@ -130,6 +132,8 @@ def run(ctx, params):
 
         model = Model()
         model.state = vals[STATES[stored - 1]] if stored else None
+        if stored and type(model.state) is str and len(model.state) > 1:
+            model.state = "".join(list(model.state))  # equal, not identical
         token = model.state
         listeners = [c() for c in r["listener_classes"]]
     kw = {"rtc": rtc, "listeners": listeners}
@@ -142,7 +146,7 @@ def run(ctx, params):
         if script.log:
             raise Mismatch(f"callbacks-ran-on-{what}:{tag}", f"{what}: {[(x[2], x[3]) for x in script.log if x[0] == 'cb']}")
         if stored and model.state is not token and what != "reactivation-after-history":
-            raise Mismatch(f"stored-value-touched:{tag}", f"{what}: model.state was {token!r}, now {model.state!r}")
+            raise Mismatch(f"stored-value-touched:{tag}", f"{what}: model.state was {token!r}, now {model.state!r} (judged by identity: an equal value written over the stored one is a write)")
 
     # ---------------------------------------------------------------- construction
     out = outcome_of(lambda: r["cls"](model, **kw), r["cls"])
